@@ -385,6 +385,16 @@ func (z *ZodRecord[T, R]) extractRecordType(input any) (T, bool) {
 			keyValue := reflect.ValueOf(k)
 			valValue := reflect.ValueOf(v)
 
+			// A nil value has no type to convert from: it fits the target
+			// only as the zero value of a nilable element type.
+			if !valValue.IsValid() {
+				if !isNilableKind(valueType.Kind()) {
+					return zero, false
+				}
+				newMap.SetMapIndex(keyValue, reflect.Zero(valueType))
+				continue
+			}
+
 			// Convert value to target type if needed
 			if valValue.Type().ConvertibleTo(valueType) {
 				convertedVal := valValue.Convert(valueType)
@@ -402,6 +412,16 @@ func (z *ZodRecord[T, R]) extractRecordType(input any) (T, bool) {
 	}
 
 	return zero, false
+}
+
+// isNilableKind reports whether nil is a value of a type of kind k.
+func isNilableKind(k reflect.Kind) bool {
+	switch k { //nolint:exhaustive // the nilable kinds
+	case reflect.Interface, reflect.Pointer, reflect.Map, reflect.Slice, reflect.Chan, reflect.Func:
+		return true
+	default:
+		return false
+	}
 }
 
 // extractRecordPtr extracts *T from input for ParseComplex.
